@@ -49,6 +49,15 @@ def parsed_ok(t, parser_path):
         # str::parse::<T>() forwards to FromStr
         if c[0] == "call" and c[1].endswith("::parse") and len(c[2]) == 1:
             return c[2][0]
+        # T::try_from(char::from(bytes[i])): the char table applied to one byte of the text -- for ASCII text (the shape regex
+        # guards every use) the same as T::from_str(&s[i..i + 1]), which converts the first char through that table (C13)
+        if c[0] == "call" and len(c[2]) == 1 and parser_path.endswith("::from_str") and \
+                c[1] in (parser_path.replace("std::str::FromStr>::from_str", "std::convert::TryFrom<char>>::try_from"),
+                         parser_path.replace("std::str::FromStr>::from_str", "std::convert::TryFrom<&char>>::try_from")):
+            ch = P.strip(c[2][0], calls=False)
+            if ch[0] == "call" and ch[1] == "std::char::convert::<impl std::convert::From<u8> for char>::from" and len(ch[2]) == 1 \
+                    and slice_of(ch[2][0]) is not None:
+                return ch[2][0]
     return None
 
 
@@ -206,6 +215,37 @@ class TokModel:
                                         variants.append((("agg", kind_t[1], (at,) + tuple(kind_t[2][1:])), db))
                     if not variants:
                         raise U("tokmodel", f"token kind payload is a merge of values that are not built in place: {P.show(ops0)[:80]}", fn)
+                elif ops0 is not None and ops0[0] == "call" and ops0[1] == "<indirect>" and len(ops0) > 3:
+                    # the rank pair is built by a constructor chosen earlier (`let make = if flag == "s" { RankPair::Suited } else
+                    # { RankPair::Ofsuit }; .. make(high, kicker)`): one virtual site per constructor, with the facts of the block
+                    # that chose it
+                    variants = []
+                    cop = fn.blocks[ops0[3]]["term"]["callee"].get("indirect")
+                    l_ = (cop.get("move") or cop.get("copy") or {}).get("l") if isinstance(cop, dict) else None
+                    for _hop in range(8):
+                        ds_ = pr.defs.get(l_, []) if l_ is not None else []
+                        if len(ds_) != 1 or ds_[0][2] != "rv":
+                            break
+                        rv_ = ds_[0][3]
+                        nxt_ = None
+                        if "use" in rv_:
+                            nxt_ = rv_["use"].get("move") or rv_["use"].get("copy")
+                        elif "cast" in rv_ and isinstance(rv_.get("a"), dict):
+                            nxt_ = rv_["a"].get("move") or rv_["a"].get("copy")
+                        if nxt_ is None or nxt_["proj"]:
+                            break
+                        l_ = nxt_["l"]
+                    for (db, si_, k_, payload_) in (pr.defs.get(l_, []) if l_ is not None else []):
+                        if k_ != "rv":
+                            continue
+                        o_ = payload_.get("use") if "use" in payload_ else (payload_.get("a") if "cast" in payload_ else None)
+                        c_ = o_.get("const") if isinstance(o_, dict) else None
+                        tgt_ = (c_.get("fn_path") or c_.get("fn")) if isinstance(c_, dict) and "fn" in c_ else None
+                        if tgt_ and tgt_.startswith(RANK_PAIR + "::") and tgt_.rsplit("::", 1)[-1] in ("Pocket", "Suited", "Ofsuit"):
+                            at = ("agg", f"adt:{tgt_}", tuple(ops0[2]))
+                            variants.append((("agg", kind_t[1], (at,) + tuple(kind_t[2][1:])), db))
+                    if len(variants) < 2:
+                        raise U("tokmodel", f"token kind payload is built by an indirect call whose targets are not rank pair constructors: {P.show(ops0)[:80]}", fn)
                 for (kind_v, fact_block) in variants:
                     st = self._make_site(bi, s["line"], kind_v, prob_t, fact_block)
                     sites.append(st)
